@@ -219,6 +219,120 @@ def compose_unit(isa):
     return unit
 
 
+# ------------------------------------------------------------------ unbounded tables (label P)
+I_, B_, R_ = z3.IntSort(), z3.BoolSort(), z3.RealSort()
+
+
+class OptStr:
+    """optional string field of a symbolic row (dst / src register type): `is None` is a term, no fork"""
+
+    def __init__(self, has, code):
+        self.has, self.code = has, code
+
+    def sym_is_none(self, ex):
+        return z3.Not(self.has)
+
+    def sym_truthy(self, ex):
+        return True  # a present type string is non-empty; for an absent one the contract never looks at the value
+
+    def sym_method(self, ex, name, args, kw):
+        if name == "lower":
+            return self  # the abstract _check_operands contract is stated on the row, case folding is part of it
+        raise Unsupported("OptStr." + name)
+
+
+def table_units(which):
+    """P: MachineModel.get_load_throughput / get_store_throughput for tables with ANY number of rows: the result is exactly the
+    rows (in order) whose addressing matches (and, for stores with a source register, that are typed and of that type);
+    if there is none, the pair (memory, copy of the default list).  _match_mem_entries: ISA dispatch and argument order."""
+    def unit(res):
+        ex = Engine([REPO + "/" + f for f in FILES])
+        ex.no_init |= {"ParserX86ATT", "ParserAArch64", "MachineModel"}
+        N = z3.Int("rows")
+        rowmem = z3.Function("row_mem", I_, I_)
+        match = z3.Function("addr_matches", I_, B_)  # _match_mem_entries(memory, row memory operand)
+        has_src = z3.Function("row_has_src", I_, B_)
+        src_ok = z3.Function("row_src_type_ok", I_, B_)
+        rows_sch = Schema("rowmem", ["MemoryOperand"], {"src": ("custom", None), "dst": ("custom", None)})
+        rows_sch.fn["src"] = lambda ex_, ref: OptStr(has_src(ref.t), ref.t)
+        rows_sch.fn["dst"] = lambda ex_, ref: OptStr(has_src(ref.t), ref.t)
+        uops_sch = Schema("rowuops", ["list"], {})
+        table = lambda: SymSeq(N, lambda i: (SRef(rowmem(i), rows_sch), SRef(i, uops_sch)))
+        memory = SObj("MemoryOperand")
+        default = [[1, "23"]]
+
+        def mme(ex_, so, a, kw):
+            if a[0] is not memory:
+                ex_.oblige("_match_mem_entries/first-argument-is-the-instruction-operand", False)
+            return SBool(match(a[1].t))
+
+        ex.abstract["_match_mem_entries"] = mme
+        made = []  # (isa argument kind, OptStr) of every RegisterOperand the function builds
+
+        def chk(ex_, so, a, kw):
+            if not (isinstance(a[0], SObj) and a[0].cls == "SrcReg"):
+                ex_.oblige("_check_operands/first-argument-is-the-source-register", False)
+            f = a[1].fields
+            v = f.get("_name") if ISA_KIND[0] == "x86" else f.get("_prefix")
+            other = f.get("_prefix") if ISA_KIND[0] == "x86" else f.get("_name")
+            if not isinstance(v, OptStr) or other is not None:
+                ex_.oblige("RegisterOperand/built-with-name-on-x86-and-prefix-on-AArch64", False)
+                return SBool(z3.BoolVal(False))
+            return SBool(src_ok(v.code))
+
+        ISA_KIND = ["x86"]
+        ex.abstract["_check_operands"] = chk
+        variants = [("load", None, "x86")] if which == "load" else [("store", False, "x86"), ("store", True, "x86"), ("store", True, "AArch64"), ("store", True, "aarch64")]
+        for kind, with_src, isa_ in variants:
+            ISA_KIND[0] = isa_.lower()
+
+            def run():
+                data = {"isa": isa_, "load_throughput": table(), "store_throughput": table(), "load_throughput_default": default, "store_throughput_default": default}
+                mm = SObj("MachineModel", _data=data)
+                if kind == "load":
+                    return ex.call_method("MachineModel", "get_load_throughput", mm, [memory])
+                return ex.call_method("MachineModel", "get_store_throughput", mm, [memory] + ([SObj("SrcReg")] if with_src else []))
+
+            paths = ex.explore(run, [N >= 0])
+            j, k = z3.Ints("j k")
+            sel = (lambda i: match(rowmem(i))) if not with_src else (lambda i: z3.And(match(rowmem(i)), has_src(rowmem(i)), src_ok(rowmem(i))))
+            anysel = z3.Exists([j], z3.And(0 <= j, j < N, sel(j)))
+
+            def post(v, p):
+                if isinstance(v, SymSeq):
+                    # non-empty, every element is a selected row, order preserved, every selected row is present
+                    e = lambda t: v.at(t)[1].t  # row index carried by the micro-op reference
+                    return z3.And(anysel, v.length >= 1,
+                                  z3.ForAll([j], z3.Implies(z3.And(0 <= j, j < v.length), z3.And(0 <= e(j), e(j) < N, sel(e(j))))),
+                                  z3.ForAll([j, k], z3.Implies(z3.And(0 <= j, j < k, k < v.length), e(j) < e(k))),
+                                  z3.ForAll([j], z3.Implies(z3.And(0 <= j, j < N, sel(j)), z3.Exists([k], z3.And(0 <= k, k < v.length, e(k) == j)))))
+                if isinstance(v, list) and len(v) == 1 and isinstance(v[0], tuple):
+                    ok = v[0][0] is memory and v[0][1] is not default and v[0][1] == default
+                    return z3.And(z3.Not(anysel), z3.BoolVal(ok))
+                return False
+
+            res.add_paths(paths, post, kind=f"{kind}/{isa_}/src_reg={with_src}")
+        # _match_mem_entries itself
+        del ex.abstract["_match_mem_entries"]
+        seen = []
+        ex.abstract["_is_x86_mem_type"] = lambda ex_, so, a, kw: seen.append(("x86", a[0], a[1])) or True
+        ex.abstract["_is_AArch64_mem_type"] = lambda ex_, so, a, kw: seen.append(("aarch64", a[0], a[1])) or True
+        for isa in ("x86", "aarch64", "AArch64", "X86"):
+            i_mem = SObj("MemoryOperand")
+
+            def run2():
+                seen.clear()
+                return ex.call_method("MachineModel", "_match_mem_entries", SObj("MachineModel", _data={"isa": isa}), [memory, i_mem])
+
+            paths = ex.explore(run2, [])
+            for p in paths:
+                ok = len(seen) == 1 and seen[0][0] == isa.lower() and seen[0][1] is i_mem and seen[0][2] is memory
+                res.add(f"_match_mem_entries[{isa}]/entry-first-operand-second", p.pc, bool(ok))
+        return res
+
+    return unit
+
+
 def units(tier):
     return [
         Unit("C08/assign_tp_lt/composition/x86", compose_unit("x86"), "Pb",
@@ -226,5 +340,7 @@ def units(tier):
               (HW, "MachineModel._match_mem_entries"), (HW, "MachineModel.average_port_pressure"), (ISA, "ISASemantics.substitute_mem_address")], timeout=1500),
         Unit("C08/assign_tp_lt/composition/aarch64", compose_unit("aarch64"), "Pb",
              [(AS, "ArchSemantics.assign_tp_lt"), (HW, "MachineModel.get_load_throughput"), (HW, "MachineModel.get_store_throughput")], timeout=1500),
+        Unit("C08/get_load_throughput(any number of rows)", table_units("load"), "P", [(HW, "MachineModel.get_load_throughput"), (HW, "MachineModel._match_mem_entries")]),
+        Unit("C08/get_store_throughput(any number of rows)", table_units("store"), "P", [(HW, "MachineModel.get_store_throughput"), (HW, "MachineModel._match_mem_entries")]),
         bounded_unit("C08/composition-vs-yaml-recomputation", "c08_compose", [(AS, "ArchSemantics.assign_tp_lt"), (AS, "ArchSemantics.add_semantics"), (HW, "MachineModel.__init__")], timeout=2400),
     ]
